@@ -81,12 +81,49 @@ def run(tier, seed):
             ncorr += 1
             mm += corr_one(drv, net, cfg)
         search_one(ck, net, cfg, seed)
+    # the same networks built in the opposite order, in a FRESH process: state kept at class or module level (a cache of
+    # masks, say) makes a network depend on which networks were built before it
+    import json as _json
+    import subprocess
+    import sys as _sys
+    pr = subprocess.run([_sys.executable, "-c", "import prop_C06; prop_C06.reverse_pass(%r, %d)" % (tier, seed)],
+                        capture_output=True, text=True, timeout=1200)
+    nrev = 0
+    for line in pr.stdout.splitlines():
+        if line.startswith("CASES "):
+            nrev = int(line.split()[1])
+        elif line.startswith("FINDING "):
+            f_ = _json.loads(line[8:])
+            ck.finding(f_["key"], f_["what"] + " [networks built in reverse order in a fresh process]", f_["case"])
+    if pr.returncode != 0:
+        ck.finding("MADE:reverse-order-pass-crashed", pr.stderr[-400:], {"search": "reverse-order"})
+    for i in range(nrev):
+        ck.case(("reverse-order", i), nontrivial=True)
     if drv is not None:
         ck.sample({"cfg": dict(F=3, H=5, copy=0), "model_hidden_degrees": drv.call("hidden_degrees_seq", z(0), z(3), z(5))[0],
                    "model_output_degrees_m2": drv.call("output_degrees", z(0), z(3), z(6))[0]})
         ck.correspondence("mask-and-degree buffers of every masked layer", ncorr, mm)
     consequences(ck, seed, tier)
     return ck.finish()
+
+
+def reverse_pass(tier, seed):
+    """run in a subprocess: build the sequential-mask networks in reverse grid order and perturb; prints findings as JSON"""
+    import json
+
+    class Rec:
+        def finding(self, key, what, case):
+            print("FINDING " + json.dumps({"key": key, "what": what, "case": case}))
+    n = 0
+    for cfg in reversed(list(configs(tier))):
+        if cfg["kind"] == "ffr" or cfg["ctx"] or cfg["bn"]:
+            continue
+        res = attempt(build, cfg, seed)
+        if res[0] != "ok":
+            continue
+        n += 1
+        search_one(Rec(), res[1], cfg, seed)
+    print("CASES %d" % n)
 
 
 def corr_one(drv, net, cfg):
